@@ -226,8 +226,9 @@ def tlc(spec: str, cfg: str | None = None, *, workers: int | str = 'auto', env: 
     others = [v for v in prints if not (v and v[0] == 'VERDICT')]
     cov = {}
     if coverage:
-        for m in re.finditer(r'<(\w+) line \d+, col \d+ to line \d+, col \d+ of module (\w+)>: (\d+):(\d+)', out):
-            cov[m.group(1)] = cov.get(m.group(1), 0) + int(m.group(4))
+        for m in re.finditer(r'<(\w+) line \d+, col \d+ to line \d+, col \d+ of module (\w+)(?: \((\d+) \d+ \d+ \d+\))?>: (\d+):(\d+)', out):
+            key = m.group(1) if not m.group(3) else '%s@%s' % (m.group(1), m.group(3))    # disjunct of Next, by source line
+            cov[key] = cov.get(key, 0) + int(m.group(5))
     err = ''
     ok = rc == 0
     if not ok:
